@@ -74,6 +74,9 @@ pub fn generate(impl_group_idx: usize, mut impl_group: ImplGroup) -> Vec<ItemImp
             }
 
             path.ident = helper_trait::gen_ident(&path.ident, impl_group_idx);
+
+            // NOTE: Helper traits are defined next to their impls no matter how the path was qualified
+            *trait_ = path.clone().into();
         });
 
     impl_group.item_impls
